@@ -108,6 +108,19 @@ async def _shared_context_teardown(env, label):
     env.ev("td", label)
 
 
+_GETTERS: dict = {}
+
+
+def _injected_getter(t, name):
+    if (t, name) not in _GETTERS:
+        from asphalt.core import inject, resource
+
+        ns = {"T": t, "inject": inject, "resource": resource}
+        exec(f"@inject\nasync def getter(*, r: T = resource({name!r})):\n    return r\n", ns)
+        _GETTERS[(t, name)] = ns["getter"]
+    return _GETTERS[(t, name)]
+
+
 async def run_steps(env: Env, node: NodeSpec, phase: str, steps: list):
     for st in steps:
         k = st[0]
@@ -170,6 +183,13 @@ async def run_steps(env: Env, node: NodeSpec, phase: str, steps: list):
             _, label, t, name = st
             env.ev("wait_begin", node.idx, label)
             v = await get_resource(t, name)
+            env.values[(node.idx, label)] = v
+            env.ev("wait_end", node.idx, label)
+        elif k == "injwait":
+            # ("injwait", label, type, name): the resource is obtained as an injected parameter of an @inject coroutine function
+            _, label, t, name = st
+            env.ev("wait_begin", node.idx, label)
+            v = await _injected_getter(t, name)()
             env.values[(node.idx, label)] = v
             env.ev("wait_end", node.idx, label)
         elif k == "tf":
